@@ -12,6 +12,7 @@ CONSTANTS
 INVARIANT NonNegative
 INVARIANT BracketBounded
 INVARIANT NodeExact
+INVARIANT BilinearOrderIrrelevant
 INVARIANT NeverExtrapolated
 INVARIANT ZeroBelowBothMinima
 INVARIANT FitsInv
